@@ -6,7 +6,7 @@
    the code under test is decided by trace validation (Trace_Cut, drift counters).
    Also exports the replay cases: every balanced sequence over GenAlpha up to GenLen. *)
 EXTENDS Cut, TLC, Json, SequencesExt
-CONSTANTS MaxLen, MCAlpha, GenLen, GenAlpha
+CONSTANTS MaxLen, MCAlpha, GenLen, GenAlpha, WideLen
 
 VARIABLES names,    \* the template: sequence of catalogue names
           phase,    \* "gen" -> "parse" -> "done"
@@ -46,8 +46,13 @@ Next == Gen \/ Start \/ NewLineCut \/ NewLineKeep \/ EofCut \/ EofKeep \/ SameLi
 Out == EmitFrom(toks, st.cuts, 1)
 \* design-level result, one pair of invariants per transcription
 InEnv == LET ps == Pieces(names, MCFmt) o == Out IN InEnvelope(ps, o)
+InLen == LET ps == Pieces(names, MCFmt) o == Out IN InLenient(ps, o)
+\* the full envelope (one-token content-free lines MUST vanish) ...
 EnvelopeHead == (phase = "done" /\ variant = "head") => InEnv
 EnvelopeFix  == (phase = "done" /\ variant = "fix")  => InEnv
+\* ... and its weaker half (nothing but the white space of content-free lines is ever removed)
+NoOvercutHead == (phase = "done" /\ variant = "head") => InLen
+NoOvercutFix  == (phase = "done" /\ variant = "fix")  => InLen
 \* the emitter slices Text[Left : len-Right]: the cuts must never overlap (else the build panics)
 SliceHead == (phase = "done" /\ variant = "head") => CutsInRange(toks, st.cuts)
 SliceFix  == (phase = "done" /\ variant = "fix")  => CutsInRange(toks, st.cuts)
@@ -62,10 +67,12 @@ SameAsFunctional == phase = "done" => LET ps == Pieces(names, MCFmt) IN
 ShebangFirst(ns) == \A i \in DOMAIN ns : ns[i] = "shebang" => i = 1
 RECURSIVE BalNames(_, _, _)
 BalNames(ns, i, dp) == IF i > Len(ns) THEN dp = 0
-                       ELSE IF ns[i] = "if" THEN BalNames(ns, i + 1, dp + 1)
+                       ELSE IF ns[i] \in {"if", "ifml"} THEN BalNames(ns, i + 1, dp + 1)
                        ELSE IF ns[i] = "end" THEN dp > 0 /\ BalNames(ns, i + 1, dp - 1)
                        ELSE BalNames(ns, i + 1, dp)
-Cases == LET GP == SetToSeq({ns \in SeqsUpTo(GenAlpha, GenLen) : ShebangFirst(ns) /\ BalNames(ns, 1, 0)})
+\* ... plus every balanced sequence of length <= WideLen over the WHOLE catalogue, so that every piece meets
+\* every possible neighbour
+Cases == LET GP == SetToSeq({ns \in SeqsUpTo(GenAlpha, GenLen) \cup SeqsUpTo(AllNames, WideLen) : ShebangFirst(ns) /\ BalNames(ns, 1, 0)})
          IN [c \in 1..Len(GP) |-> [id |-> c, names |-> GP[c]]]
 \* the whole catalogue at every position and format, for the seeded longer sequences assembled by checks/c15.py
 CatEntry(CN, NF, c) == LET ai == ((c - 1) \div (9 * NF)) + 1
